@@ -40,7 +40,9 @@ def engine_case(draw):
         "secured": draw(st.sampled_from([None, "bearer", "basic", "apiKey"])),
         "headers": draw(st.sampled_from([{}, {"X-Tenant": "USER-TENANT"}, {"X-Tenant": "USER-TENANT", "Authorization": "Bearer user-token"}, {"Authorization": "Bearer user-token"}, {"X-Key": "user-key"}])),
         "auth": draw(st.sampled_from([None, None, ["usr", "pw"]])),
-        "override": draw(st.sampled_from([{}, {"query": {"ver": "42"}}, {"cookies": {"sid": "COOKIE-OVR"}}, {"query": {"ver": "42"}, "cookies": {"sid": "COOKIE-OVR"}, "headers": {"X-Tenant": "OVR-TENANT"}}, {"path_parameters": {"id": "777"}}])),
+        "override": draw(st.sampled_from([{}, {"query": {"ver": "42"}}, {"cookies": {"sid": "COOKIE-OVR"}}, {"query": {"ver": "42"}, "cookies": {"sid": "COOKIE-OVR"}, "headers": {"X-Tenant": "OVR-TENANT"}}, {"path_parameters": {"id": "777"}},
+                                         # an empty value is a value (`--set-query ver=`, `--set-header X-Tenant=`)
+                                         {"query": {"ver": ""}}, {"headers": {"X-Tenant": ""}, "query": {"ver": ""}}])),
         "phases": draw(st.sampled_from([["examples", "coverage", "fuzzing", "stateful"], ["coverage"], ["fuzzing"], ["stateful"], ["fuzzing", "stateful"]])),
         "modes": draw(st.sampled_from([["positive"], ["positive", "negative"]])),
         "workers": draw(st.sampled_from([1, 2, 3])),
@@ -187,13 +189,14 @@ def check_engine(ctx: Ctx, inp) -> None:
         # overrides apply to operations that declare the parameter
         q = dict(parse_qsl(req.query, keep_blank_values=True))
         if N_VER in ovr.get("query", {}) and declares[N_VER]:
-            if q.get(N_VER) != "42":
-                ctx.disagree("engine:query-override-not-applied", f"{where}: query {N_VER}={q.get(N_VER)!r}, override 42", input=inp, request=req.as_json())
+            want_q = ovr["query"][N_VER]
+            if q.get(N_VER) != want_q:
+                ctx.disagree("engine:query-override-not-applied" + (":empty-value" if want_q == "" else ""), f"{where}: query {N_VER}={q.get(N_VER)!r}, override {want_q!r}", input=inp, request=req.as_json())
         if N_SID in ovr.get("cookies", {}) and declares[N_SID] and is_get:
             if f"{N_SID}=COOKIE-OVR" not in (req.header("Cookie") or ""):
                 ctx.disagree("engine:cookie-override-not-applied", f"{where}: Cookie is {req.header('Cookie')!r}", input=inp, request=req.as_json())
         if N_TENANT in ovr.get("headers", {}) and declares[N_TENANT] and N_TENANT not in inp["headers"]:
-            if req.header(N_TENANT) != "OVR-TENANT":
+            if req.header(N_TENANT) != ovr["headers"][N_TENANT]:
                 ctx.disagree("engine:header-override-not-applied", f"{where}: {N_TENANT} is {req.header(N_TENANT)!r}", input=inp, request=req.as_json())
         # whatever is printed later, the redaction marker itself must never travel
         if "[Filtered]" in unquote(req.target) or any("[Filtered]" in v for _, v in req.headers):
